@@ -212,6 +212,52 @@ def run(chk):
                "minimal_parentheses_differ": int(stats["minimal_parentheses_differ"]),
                "signatures": dict(per_sig), "exhaustive": False,
                "exhaustive_depth2": chk.tier == "thorough"}
+    like_family(chk)
+
+
+def like_family(chk):
+    """LikeFamily.tla: every pattern over {a, b, %, _} up to length 4 against every text over {a, b} up to length 5
+    (backtracking after %, overlapping literal segments, _ next to %): WHERE s LIKE p, WHERE s NOT LIKE p and the
+    select-list value, compared with the spec's LikeMatch."""
+    import re
+    gen = vlib.tlc_emit("MC_LikeFamily.tla", os.path.join(vlib.SPEC, "Gen_LikeFamily.cfg"), timeout=600, workers=1)
+    if gen["violated"]:
+        raise vlib.ToolError("LikeFamily.tla violates its own laws: %s" % gen["violated"])
+    pats = gen["emitted"]
+    texts = [""] + ["".join(t) for n in range(1, 6) for t in __import__("itertools").product("ab", repeat=n)]
+    setup = ["CREATE TABLE lk (id INT PRIMARY KEY, s TEXT)"]
+    for i in range(0, len(texts), 32):
+        setup.append("INSERT INTO lk VALUES " + ", ".join("(%d, '%s')" % (j + 1, texts[j]) for j in range(i, min(i + 32, len(texts)))))
+    rng = random.Random(chk.seed)
+    if chk.tier != "thorough":
+        # every pattern of length <= 3 and a seeded half of the length-4 ones
+        pats = [c for c in pats if len(c["p"]) <= 3 or rng.random() < 0.5]
+    qs = []
+    for c in pats:
+        qs.append("SELECT s FROM lk WHERE s LIKE '%s'" % c["p"])
+        qs.append("SELECT s FROM lk WHERE s NOT LIKE '%s'" % c["p"])
+        qs.append("SELECT s, s LIKE '%s' FROM lk" % c["p"])
+    res = oracle.run_sql(setup, qs, batch=120)
+    bad = 0
+    for i, c in enumerate(pats):
+        yes = set(c["yes"])
+        shape = re.sub("[ab]", "x", c["p"])
+        for k, (ctx, want) in enumerate((("where", yes), ("where_not", set(texts) - yes), ("select", yes))):
+            r = res[3 * i + k]
+            if "rows" not in r:
+                got = None
+            elif ctx == "select":
+                got = {row[0] for row in r["rows"] if row[1] == {"bool": True} or row[1] is True or row[1] == 1}
+            else:
+                got = {row[0] for row in r["rows"]}
+            if got != want:
+                bad += 1
+                chk.classify("like_family:%s:%s" % (ctx, shape), {"sql": qs[3 * i + k], "pattern": c["p"],
+                             "missing": sorted(want - got)[:6] if got is not None else None, "extra": sorted(got - want)[:6] if got is not None else None,
+                             "error": None if got is not None else json.dumps(r)[:200]})
+    chk.cov["like_family"] = {"patterns": len(pats), "texts": len(texts), "queries": len(qs), "divergent_queries": bad}
+    chk.cov["evaluations"] = chk.cov.get("evaluations", 0) + len(qs)
+    chk.mark("like_family")
 
 
 def replay(chk, path):
